@@ -16,6 +16,7 @@ import (
 func init() { extraGenerators = append(extraGenerators, genAccess) }
 
 type accessGen struct {
+	scanners map[string]bool
 	funcs  map[string]*ast.FuncDecl // "Cache.Refresh", "watch.update"
 	opts   []*ast.FuncLit           // option closures: func(c *Cache) { ... }
 	fields map[string]map[string]bool
@@ -212,6 +213,12 @@ func (w *accWalker) walk(n ast.Node) {
 				w.emit(t)
 				return false
 			}
+			if id, ok := x.Fun.(*ast.Ident); ok && w.g.scanners[id.Name] {
+				// a scan of the Spec directories: recorded as a read of the pseudo-field "fs:scan" (the directory
+				// contents as seen by this scan), so that where the scan happens relative to Lock/Unlock and to the
+				// publication of its result is part of the extracted program
+				w.emit("R:fs:scan")
+			}
 			if id, ok := x.Fun.(*ast.Ident); ok && w.typ == "watch" && id.Name == "refresh" && len(x.Args) == 0 {
 				// the refresh callback handed to watch.start is c.refresh
 				if w.inline("Cache.refresh", nil) {
@@ -286,6 +293,32 @@ func genAccess(outDir string) {
 			}
 			return true
 		})
+	}
+	// scanner functions: package-level functions of cache.go / spec-dirs.go that walk a directory
+	g.scanners = map[string]bool{}
+	for _, of := range []*ast.File{f, parseFile("pkg/cdi/spec-dirs.go")} {
+		for _, d := range of.Decls {
+			fd, ok := d.(*ast.FuncDecl)
+			if !ok || fd.Body == nil || fd.Recv != nil {
+				continue
+			}
+			ast.Inspect(fd.Body, func(n ast.Node) bool {
+				if ce, ok := n.(*ast.CallExpr); ok {
+					if se, ok := ce.Fun.(*ast.SelectorExpr); ok {
+						if pk, ok := se.X.(*ast.Ident); ok && (pk.Name == "filepath" || pk.Name == "os" || pk.Name == "fs") {
+							switch se.Sel.Name {
+							case "Walk", "WalkDir", "ReadDir", "Readdir", "Readdirnames":
+								g.scanners[fd.Name.Name] = true
+							}
+						}
+					}
+				}
+				return true
+			})
+		}
+	}
+	if len(g.scanners) == 0 {
+		die("pkg/cdi: no function that walks a directory found (scanSpecDirs?)")
 	}
 	var entries []string
 	for _, d := range f.Decls {
